@@ -24,7 +24,7 @@ import re
 
 KEYWORDS = ('purefn', 'define', 'ghost', 'assume', 'func', 'mode', 'requires', 'ensures', 'let', 'calls', 'modifies', 'loop',
             'effect', 'serves', 'lp', 'at', 'lemma', 'trusted', 'iterates', 'spawns', 'note', 'inline', 'twin',
-            'pure', 'opaque', 'check', 'havoc', 'frame', 'reenters', 'oncall')
+            'pure', 'opaque', 'check', 'havoc', 'frame', 'reenters', 'oncall', 'ghostsync')
 
 TOK = re.compile(r'\s*(?:(\d+[a-zA-Z_0-9]*)|([A-Za-z_$][A-Za-z_0-9$]*)|(==>|<==>|==|!=|<=|>=|&&|\|\||<<|>>|&\^|::|->|[-+*/%&|^!<>()\[\]{}.,:=?])|("(?:[^"\\]|\\.)*"))')
 
@@ -467,7 +467,7 @@ def parse_file(lines, fname, pkg, sf=None):
             elif kind == 'modifies':
                 c.extra['items'] = [x.strip() for x in t.split(',') if x.strip()]
             elif kind in ('mode', 'effect', 'serves', 'lp', 'trusted', 'note', 'inline', 'twin', 'pure', 'opaque',
-                          'iterates', 'spawns', 'havoc', 'frame', 'reenters'):
+                          'iterates', 'spawns', 'havoc', 'frame', 'reenters', 'ghostsync'):
                 c.extra['arg'] = t.strip()
             c.ordinal = sum(1 for x in cur.clauses if x.kind == c.kind)
             cur.clauses.append(c)
